@@ -207,6 +207,9 @@ func c06Exec(x *engine.Ctx, cc any) {
 		base = append(base, rep)
 		l := append(append([]refcfg.Ext{}, base[c.Rot:]...), base[:c.Rot]...)
 		c06Run(x, l, fmt.Sprintf("rot %d v%d", c.Rot, c.Ver), c.Ver)
+		if c.Ver == 0 {
+			c06RunEdited(x, l, fmt.Sprintf("rot %d edited-in", c.Rot))
+		}
 	case "merged":
 		c06Merged(x, c)
 	case "sweep":
@@ -292,6 +295,44 @@ func c06Run(x *engine.Ctx, exts []refcfg.Ext, key string, ver int) {
 	}
 	reportOwned(x, "C06", diffs)
 	x.Outcome(fmt.Sprintf("compared n=%d", len(exts)))
+}
+
+// c06RunEdited: the entity exists already (generated with the same extensions in reverse order); the
+// list under test is then edited into its file and the default run re-issues it because its hash
+// changed - the path on which the effective configuration passes through change detection first.
+func c06RunEdited(x *engine.Ctx, exts []refcfg.Ext, key string) {
+	rev := make([]refcfg.Ext, len(exts))
+	for i := range exts {
+		rev[len(exts)-1-i] = exts[i]
+	}
+	cfg := &refcfg.CertCfg{Path: "ent.yaml", Subject: "CN=ext", KeyAlg: "P-224", Exts: rev}
+	d := &Dir{Certs: []*refcfg.CertCfg{cfg}}
+	g := Generate(d, func(w *simfs.World) { w.Put("ent.pem", FixtureKeyPEM("P-224-0")) }, drive.Default)
+	x.Nontrivial(key)
+	if !g.Res.OK() {
+		x.Violation("C06/edited/first-run-failed", fmt.Sprintf("%s: %v %s", key, g.Res.Err(), g.Res.Panic))
+		return
+	}
+	cfg.Exts = exts
+	g.W.Put(cfg.Path, cfg.YAML())
+	g2 := &GenResult{W: g.W, Before: g.W.Clone(), RunStart: g.RunStart}
+	g2.Res = drive.Run(g.W, drive.Default, nil)
+	g2.RunEnd = g.RunEnd + 5
+	if !g2.Res.OK() || !g2.Res.Planned("ent") {
+		x.Violation("C06/edited/not-reissued", fmt.Sprintf("%s: %v %s plan %v", key, g2.Res.Err(), g2.Res.Panic, g2.Res.PlanAliases()))
+		return
+	}
+	diffs, _, err := g2.CompareEntity(d, "ent", "")
+	if err != nil {
+		x.Violation("C06/edited/no-certificate", fmt.Sprintf("%s: %v", key, err))
+		return
+	}
+	for _, df := range diffs {
+		if df.Owner == "C06" {
+			x.Violation(strings.Replace(df.Class, "C06/", "C06/edited/", 1), fmt.Sprintf("%s (list edited into an existing entity): %s", key, df.Detail))
+		}
+	}
+	x.Outcome("edited-in compared")
 }
 
 // c06Sweep: every !binary payload length in [From,To].
@@ -423,7 +464,7 @@ func init() {
 	register(&engine.Check{
 		ID:          "C06",
 		Level:       "exploration",
-		Rule:        "11 extension kinds x critical {omitted,false,true} x body {raw !null, raw !empty, raw !binary of 1,2,3,127,128,767,768,769,1024,65536 bytes, simplest content}; every list of length 0 and 2 over kind x critical (33^2); all 12 rotations of a list holding each kind once plus a repeated type, each also with a .version manipulation of 0..4 (and every kind alone with each), since the list does not depend on the version number written; the effective list under a profile: every profile list of length 1..2 over 4 entries (two SAN forms, EKU, a custom extension with the SAN OID) x override x optional against every certificate list of length 0..3 over the same entries (quick thins the largest block to a quarter); every !binary payload length 1..4096 (quick) / 1..65536 (thorough) at ParseConfig->Builder->Compile level and 1..1100 / 1..4096 through whole certificates; unique ids, signature value, public-key bits, authority key id and addProfessionInfo at the boundary lengths. Oracle: same list, order, OIDs, critical exactly as configured (absent in DER when false/omitted), raw bodies byte-identical. non-trivial = distinct case (payload lengths distinct by construction)",
+		Rule:        "11 extension kinds x critical {omitted,false,true} x body {raw !null, raw !empty, raw !binary of 1,2,3,127,128,767,768,769,1024,65536 bytes, simplest content}; every list of length 0 and 2 over kind x critical (33^2); all 12 rotations of a list holding each kind once plus a repeated type (each also edited into an entity that was generated with the reverse order, so that it is re-issued through change detection), each also with a .version manipulation of 0..4 (and every kind alone with each), since the list does not depend on the version number written; the effective list under a profile: every profile list of length 1..2 over 4 entries (two SAN forms, EKU, a custom extension with the SAN OID) x override x optional against every certificate list of length 0..3 over the same entries (quick thins the largest block to a quarter); every !binary payload length 1..4096 (quick) / 1..65536 (thorough) at ParseConfig->Builder->Compile level and 1..1100 / 1..4096 through whole certificates; unique ids, signature value, public-key bits, authority key id and addProfessionInfo at the boundary lengths. Oracle: same list, order, OIDs, critical exactly as configured (absent in DER when false/omitted), raw bodies byte-identical. non-trivial = distinct case (payload lengths distinct by construction)",
 		Bound:       map[string]string{"list length": "0..2 exhaustive, 12 by rotation", "payload length": "every length up to 4096 / 65536"},
 		Assumptions: []string{"payload contents are one deterministic pattern per length", "subjectKeyIdentifier content !binary may or may not be wrapped in an OCTET STRING (documentation and code disagree)"},
 		Budget:      budgets(quickBudget, thoroughBudget),
